@@ -1,6 +1,11 @@
 import KyupyVerif.Proofs.NetlistBF
 import KyupyVerif.Proofs.BenchText
 import KyupyVerif.Proofs.VerilogText
+import KyupyVerif.Proofs.BenchEnd
+import KyupyVerif.Proofs.BenchErr
+import KyupyVerif.Proofs.BenchSched
+import KyupyVerif.Proofs.VerilogEnd
+import KyupyVerif.Proofs.SemL
 /-! # C11 — parsed Verilog and bench netlists simulate as the described netlist
 
 Objects of the theorems: two hand-written models of `kyupy/verilog.py` and `kyupy/bench.py`.
@@ -40,6 +45,32 @@ tree after the `name` callback, handed on by `toR`).  Theorems quantify over ALL
   `bench_text_between_statements`, `bench_text_trailing_comment`; `bench_text_to_netlist`, `verilog_text_to_netlist` — the circuit model (1) builds from model
   (2)'s reading of the printed text is the circuit of the statement list, which puts all theorems of (1) behind the text.
   NOT a theorem: the converse (every accepted text is a layout of a token stream) and anything about rejected texts.
+  **`parsed_sem` (connectivity ⇒ function)** — sections `ParsedSem`, `ParsedSemVerilog` at the end of this file.  `Circ.toNet`
+  (Model/CircNet.lean) is the canonical dump (`KV.Net`, the object of every simulation theorem of C01/C02/…) of the circuit the
+  parser model builds; `benchNet stmts` / `verilogNet cfg tl ports stmts` are the dumps of `bench stmts` / `module …`.
+  Statement-level denotations, written without reference to the circuit: `BenchModel` (Model/BenchSem.lean), `VModel`
+  (Model/VerilogSem.lean) — an environment `σ : signal name → α` over ANY value domain / op algebra (`prim`, `z`, `neg` as in
+  `lineEq`) that satisfies every gate statement / instance, gives ports and state elements their assigned values.
+  `bench_net_wf`, `verilog_net_wf` (the dump of EVERY model circuit is `Net.wfB`); `bench_net_ports`, `bench_snodes`,
+  `verilog_snodes` (ports and `s_nodes` = statement-level lists); `bench_parsed_sem`, `verilog_parsed_sem` (the labellings of the
+  net that satisfy every gate equation `lineEq` of the specification evaluator correspond ONE-TO-ONE to the models `σ`; line `i`
+  carries `σ` of the signal `benchSigs[i]` / `vSigs[i]`; relational — no acyclicity hypothesis); `bench_captured`,
+  `verilog_captured` (what is captured at an output port `o` is `σ o`, at a flip-flop `q = DFF(d)` / the pin-0 signal `σ d`);
+  `bench_checker_sound`, `verilog_checker_sound`; `bench_end_to_end`, `bench_end_to_end4/8`, `verilog_end_to_end(8)` (composition
+  with C01/C02: for every topological order that schedules every line there is exactly ONE model and the `LogicSim` result of the
+  `SimOps` model is `σ` on every line and at every capture); `bench_text_to_net`, `verilog_text_to_net` (from TEXT, any layout).
+  Bench: ALL statement lists that build (`benchOKB`: gate names pairwise different, no kind `__fork__`).  Verilog: the fragment
+  `verilogOKB` — declarations, named single-bit pins reading constant bits (`__const<b>_<k>__` cell + fork each) or driven signals,
+  `assign` statements of any shape whose bit pairs are in dependency order (alias lines fork → fork, constant sources; both
+  pass-1.5 variants), both `branchforks` settings, UNRESOLVED circuit (an instance of kind `K` means what the simulator's kind
+  table makes of `K`; for a library of primitives this is the function of the netlist; library substitution is C10
+  `resolve_sem`); NOT covered: multi-bit pin connections, 1-bit bus by base name, floating inputs / undriven outputs, assign pairs
+  out of dependency order or onto a driven target (findings D23/D24).
+  Hypotheses of the end-to-end theorems `orderOKB` / `forksOKB` / `linesDrivenB` are decidable conditions on (net, order); for
+  bench they follow from the description (`bench_sched_hyps`, `bench_end_to_end_closed`: closed description over kinds the prefix
+  table knows, a topological order that covers every node), for Verilog they are hypotheses.  For bench `benchOKB` is exactly
+  "the parser model does not set `err`" (`bench_ok_is_no_error`); that a Verilog module inside `verilogOKB` builds (model `err`
+  false, real parser does not raise) is checked on every generated case by the correspondence run, not proved.
 * **Correspondence** (harness/c11.py, differential, not proof): (1) == real `verilog.parse` / `bench.parse` on generated
   texts: node list, line list with all pin numbers, `io_nodes`, connectivity table; both raise or both build on inputs outside
   the subset.  Which variant of pass 1.5 / pass 2 (`Cfg.assignFix`, `Cfg.onebitDecl`) the code under test has is probed.
@@ -50,9 +81,17 @@ tree after the `name` callback, handed on by `toR`).  Theorems quantify over ALL
   real parsed circuit (or both raise).  What remains trusted at the text level: that lark implements the grammar as the hand
   parser reads it — no longer unexamined, but checked on these texts only.  Outside the modelled domain (answered `unsup`,
   counted, not compared): a name with an apostrophe that is not a sized constant (Python's `int()` accepts more spellings).
+  (3) `parsed_sem` tie (`parsed_sem_bench`, `parsed_sem_verilog`): `benchNet` / `verilogNet` (driver `netof`) == `dump_net` of the
+  REAL parsed circuit character by character (every generated case that builds, also outside the Verilog fragment); `benchOKB`,
+  `benchClosedB`, `verilogOKB` and the hypotheses of the end-to-end theorems (real topological order) evaluated by the driver on
+  every case (coverage tags `parsed-sem:*`); for covered cases the model's `σ` (driver `benchsem` / `verilogsem`: evaluator +
+  acceptance check `benchModelB` / `vModelB`, sound by theorem) observed at outputs and state elements == the GENERATOR's own
+  evaluation of the netlist it rendered (bench; Verilog over the library of primitives `PRIM`) and == the real `LogicSim` on the
+  real unresolved circuit (Verilog, every library), on sampled assignments.
 * **Oracle** (harness/c11.py): truth table of the parsed + resolved circuit under the real `LogicSim(m=2)` against the
   generator's own evaluation of the netlist it rendered; port order; Verilog vs bench.  This decides violations.
-  The step from "right connectivity" to "right Boolean function" (DESIGN `parsed_sem`) is oracle-only. -/
+  The step from "right connectivity" to "right Boolean function" (DESIGN `parsed_sem`) is now a theorem for bench and for the
+  Verilog fragment above; it stays oracle-only for Verilog modules outside the fragment and for `resolve_tlib_cells`. -/
 namespace KV.C11
 open KV.Netlist
 
@@ -694,5 +733,395 @@ example : (toSel (.sig "4'hA" none)).map sigsel = some (.many ["1'b1", "1'b0", "
     (toSel (.cat [.sig "x" none, .sig "2'B10" none])).map sigsel = some (.many ["x", "1'b1", "1'b0"]) ∧
     (toSel (.sig "a'b" none)).isNone = true := by decide +kernel
 end VerilogText
+
+/-! ## `parsed_sem`, bench: the parsed circuit has the Boolean function the description denotes
+
+`benchNet stmts` (Model/CircNet.lean) is the canonical dump (`KV.Net`: what `dump_net` prints for a real `Circuit`, what every
+simulation theorem of C01/C02 speaks about) of the circuit `bench stmts`; `BenchModel stmts z prim a σ` (Model/BenchSem.lean) is
+the statement-level denotation, written without reference to the circuit: the environment `σ : signal name → α` satisfies every
+gate statement (`σ g = prim P (σ d₀) …`, `P` by longest prefix family and operand count, missing operands read `z`; a `dff` /
+`latch` statement: `σ g` = the value assigned to that state element) and gives every other name its assigned value (ports) or `z`.
+`NetLabelling net z neg prim a v`: the labelling `v` of the lines satisfies the specification evaluator's gate equation `lineEq`
+on every line (`consistentB` as a proposition, `netlabelling_is_consistentB`).  Any value domain `α`, any op algebra. -/
+section ParsedSem
+open KV KV.Sig
+
+/-- the dump of the parsed circuit is well formed — for EVERY statement list (and every model circuit) -/
+theorem bench_net_wf (stmts : List BStmt) : (benchNet stmts).wfB = true := toNet_wf _ _
+
+/-- `benchOKB` is what it says: gate names pairwise different, no kind `__fork__` -/
+theorem bench_ok_iff (stmts : List BStmt) (h : benchOKB stmts = true) :
+    ((benchGates stmts).map (·.name)).Nodup ∧ ∀ g ∈ benchGates stmts, g.kind ≠ forkKind := by
+  obtain ⟨h1, h2⟩ := benchOK_of stmts h
+  exact ⟨h1, fun g hg => by simpa using List.all_eq_true.mp h2 g hg⟩
+
+/-- … and it is exactly the condition under which the parser model does not set `err` (the real `bench.parse` raises exactly
+when the model sets `err`: exact correspondence) -/
+theorem bench_ok_is_no_error (stmts : List BStmt) : (bench stmts).err = !benchOKB stmts := bench_err stmts
+
+/-- the ports of the net are the names of the INPUT/OUTPUT statements in text order, each the fork of that name -/
+theorem bench_net_ports (stmts : List BStmt) :
+    (benchNet stmts).io = (benchPorts stmts).map (fun s => (bench stmts).nodeIdx (.fork s)) ∧
+    benchPorts stmts = stmts.flatMap benchPortsOf ∧
+    ∀ s ∈ benchPorts stmts, ∃ h : (bench stmts).nodeIdx (.fork s) < (bench stmts).nodes.length,
+      ((bench stmts).nodes[(bench stmts).nodeIdx (.fork s)]).kind = forkKind ∧
+      ((bench stmts).nodes[(bench stmts).nodeIdx (.fork s)]).name = s := by
+  refine ⟨?_, ?_, ?_⟩
+  · show (bench stmts).ioBench = _
+    unfold Circ.ioBench; rw [bench_ioB]
+  · rw [← bench_ioB, bench_io_order]
+  · intro s hs
+    exact ⟨bench_resolved_port s hs, resolved_fork_spec _ s (bench_resolved_port s hs)⟩
+
+/-- `s_nodes` of the net: the port forks in text order, then the cells of the flip-flop statements in text order, then the cells
+of the latch statements (`benchSNames`); `benchSPos` is the position in this list -/
+theorem bench_snodes (stmts : List BStmt) (hok : benchOKB stmts = true) :
+    (benchNet stmts).sNodes = (benchSNames stmts).map (bench stmts).nodeIdx ∧
+    ∀ e ∈ benchSNames stmts, (benchNet stmts).sPos ((bench stmts).nodeIdx e) = some (benchSPos stmts e) := by
+  have hok' := benchOK_of stmts hok
+  refine ⟨benchNet_sNodes hok', fun e he => ?_⟩
+  obtain ⟨h1, h2⟩ := sNames_resolved hok' e he
+  rw [benchNet_sPos hok' e h1 h2]
+  simp [he]
+
+/-- **`bench_parsed_sem`**: for every description that builds (`benchOKB`), every value domain, op algebra and assignment:
+(1) the net has one line per gate statement and operand (`benchSigs`: the signal each line carries — the line from cell `g` to
+fork `g` carries `g`, the line from fork `d` into a gate pin carries `d`);
+(2) every model `σ` of the description induces a labelling of the lines consistent with the netlist;
+(3) every labelling consistent with the netlist is induced by a model;
+(4) two models inducing the same labelling are equal — models and consistent labellings correspond one-to-one.
+Relational: no acyclicity hypothesis; a cyclic description has as many models as the net has consistent labellings. -/
+theorem bench_parsed_sem {α : Type} (stmts : List BStmt) (hok : benchOKB stmts = true) (z : α) (neg : α → α)
+    (prim : String → α → α → α → α → α) (a : Nat → α) :
+    (benchNet stmts).lines.size = (benchSigs stmts).length ∧
+    (∀ σ, BenchModel stmts z prim a σ → NetLabelling (benchNet stmts) z neg prim a (benchLabel stmts σ)) ∧
+    (∀ v, NetLabelling (benchNet stmts) z neg prim a v →
+      ∃ σ, BenchModel stmts z prim a σ ∧ ∀ i, i < (benchNet stmts).lines.size → v i = benchLabel stmts σ i) ∧
+    (∀ σ σ', BenchModel stmts z prim a σ → BenchModel stmts z prim a σ' →
+      (∀ i, i < (benchNet stmts).lines.size → benchLabel stmts σ i = benchLabel stmts σ' i) → σ = σ') := by
+  have hok' := benchOK_of stmts hok
+  refine ⟨by rw [benchNet_lines_size, benchSigs_length], fun σ hm => bench_model_labelling hok' z neg prim a σ hm,
+    fun v hv => ⟨_, bench_labelling_model hok' z neg prim a v hv⟩, fun σ σ' h1 h2 h => bench_model_unique hok' z prim a σ σ' h1 h2 h⟩
+
+/-- the label of line `i` under an environment is the value of the signal `benchSigs[i]` -/
+theorem bench_label_def {α : Type} (stmts : List BStmt) (σ : String → α) (i : Nat) :
+    benchLabel stmts σ i = σ ((benchSigs stmts).getD i "") := rfl
+
+/-- `NetLabelling` is the proposition the oracle's Boolean checker `consistentB` decides (on `benchNet` of a description that builds) -/
+theorem netlabelling_is_consistentB {α : Type} [BEq α] [LawfulBEq α] (stmts : List BStmt) (hok : benchOKB stmts = true) (z : α)
+    (neg : α → α) (prim : String → α → α → α → α → α) (a : Nat → α) (v : Array α) :
+    consistentB (benchNet stmts) z neg prim a v = true ↔ NetLabelling (benchNet stmts) z neg prim a (fun i => v.getD i z) := by
+  apply netLabelling_iff_consistentB
+  intro l hl
+  have hok' := benchOK_of stmts hok
+  rw [benchNet_lines_size] at hl
+  unfold benchNet
+  rw [toNet_nodes_size, toNet_line _ _ l (by rw [bench_flat]; exact hl)]
+  have := bench_resolved_driver hok' _ (List.getElem_mem hl)
+  simp only [bench_flat]
+  exact this
+
+/-- **what is observed**: under the labelling of an environment `σ`, the value captured at `s_nodes` position `j` (the line on
+input pin 0 of the `j`-th interface node: what `c_to_s` copies, `evalCapturesG`) is — for an output port `o` (a port some gate
+statement defines) `σ o`; for a state element `q = DFF(d, …)` its data operand `σ d`; nothing for assigned ports -/
+theorem bench_captured {α : Type} (stmts : List BStmt) (hok : benchOKB stmts = true) (σ : String → α) :
+    ((benchNet stmts).sNodes.map fun n => ((benchNet stmts).node n).inPin 0 |>.map (benchLabel stmts σ)) =
+      benchCaptures stmts σ :=
+  bench_captures (benchOK_of stmts hok) σ
+
+/-- the driver's acceptance check is sound: an accepted table IS a model (this is how the correspondence run evaluates `σ`) -/
+theorem bench_checker_sound {α : Type} [BEq α] [LawfulBEq α] (stmts : List BStmt) (z : α) (prim : String → α → α → α → α → α)
+    (a : Nat → α) (tab : List (String × α)) (h : benchModelB stmts z prim a tab = true) :
+    BenchModel stmts z prim a (envOf stmts z a tab) := benchModelB_sound z prim a tab h
+
+/-- **`bench_end_to_end`** (2-valued; composition with C01/C02 `sim2_all_circuits` / `gate_equations_are_netlist`): for every
+description that builds, every topological order of its net (`orderOKB`) that schedules every line (`linesDrivenB`; forks are
+forks: `forksOKB` — three decidable conditions on net and order, evaluated by the driver on every real circuit and order) and every
+stimulus `env`: there is exactly ONE model `σ` of the description under the assignment the stimulus gives to the interface
+positions, the 2-valued `LogicSim` result (`exec semL2n` of the rows the `SimOps` model generates) is `σ` of the line's signal on
+every line, and what is captured at every interface position is what the description observes: `σ o` at an output port `o`, `σ d` at
+a flip-flop `q = DFF(d)`.  Existence and uniqueness of the model are CONCLUSIONS (an order exists only for acyclic nets). -/
+theorem bench_end_to_end (stmts : List BStmt) (hok : benchOKB stmts = true) (order : List Nat)
+    (ho : orderOKB (benchNet stmts) order = true) (hfk : forksOKB (benchNet stmts) order = true)
+    (hall : linesDrivenB Gen.kindPrefixes (benchNet stmts) order = true) (env : Nat → Bool) :
+    ∃ σ, BenchModel stmts (env (benchNet stmts).idx.zero) prim2 (fun p => env ((benchNet stmts).idx.ppi + p)) σ ∧
+      (∀ σ', BenchModel stmts (env (benchNet stmts).idx.zero) prim2 (fun p => env ((benchNet stmts).idx.ppi + p)) σ' → σ' = σ) ∧
+      (∀ i, i < (benchNet stmts).lines.size →
+        exec semL2n ((genOps Gen.kindPrefixes (benchNet stmts) order false).map OpRow.toOp) env i = benchLabel stmts σ i) ∧
+      ((benchNet stmts).sNodes.map fun n => ((benchNet stmts).node n).inPin 0 |>.map
+        (exec semL2n ((genOps Gen.kindPrefixes (benchNet stmts) order false).map OpRow.toOp) env)) = benchCaptures stmts σ :=
+  bench_sim_generic (benchOK_of stmts hok) semL2n specL2 (fun _ h xs => semL2n_eq_spec h xs) (!·) prim2 semSpec2 order ho hfk hall env
+
+/-- the scheduler's domain hypotheses follow from the DESCRIPTION: for a closed description (`benchClosedB`: every operand is a
+port or a gate output, no kind lower-cases to `__fork__`) `forksOKB` holds for EVERY order; if moreover every combinational kind
+is known to the simulator's generated prefix table in the arity its operand count selects (`benchKnownB`) and the order covers every
+node, every line is scheduled (`linesDrivenB`) -/
+theorem bench_sched_hyps (stmts : List BStmt) (hcl : benchClosedB stmts = true) (order : List Nat) :
+    forksOKB (benchNet stmts) order = true ∧
+    (benchKnownB stmts = true → (∀ n, n < (benchNet stmts).nodes.size → n ∈ order) →
+      linesDrivenB Gen.kindPrefixes (benchNet stmts) order = true) :=
+  ⟨bench_forksOK (benchClosed_of stmts hcl) order,
+   fun hkn hcov => bench_linesDriven (benchClosed_of stmts hcl) hkn order (fun n hn => hcov n (by rw [benchNet_nodes_size]; exact hn))⟩
+
+/-- **`bench_end_to_end_closed`**: `bench_end_to_end` with hypotheses on the description and the order only — a closed
+description over known kinds, a topological order (`orderOKB`) that covers every node of the net -/
+theorem bench_end_to_end_closed (stmts : List BStmt) (hcl : benchClosedB stmts = true) (hkn : benchKnownB stmts = true)
+    (order : List Nat) (ho : orderOKB (benchNet stmts) order = true) (hcov : ∀ n, n < (benchNet stmts).nodes.size → n ∈ order)
+    (env : Nat → Bool) :
+    ∃ σ, BenchModel stmts (env (benchNet stmts).idx.zero) prim2 (fun p => env ((benchNet stmts).idx.ppi + p)) σ ∧
+      (∀ σ', BenchModel stmts (env (benchNet stmts).idx.zero) prim2 (fun p => env ((benchNet stmts).idx.ppi + p)) σ' → σ' = σ) ∧
+      (∀ i, i < (benchNet stmts).lines.size →
+        exec semL2n ((genOps Gen.kindPrefixes (benchNet stmts) order false).map OpRow.toOp) env i = benchLabel stmts σ i) ∧
+      ((benchNet stmts).sNodes.map fun n => ((benchNet stmts).node n).inPin 0 |>.map
+        (exec semL2n ((genOps Gen.kindPrefixes (benchNet stmts) order false).map OpRow.toOp) env)) = benchCaptures stmts σ := by
+  have hok : benchOKB stmts = true := by
+    unfold benchClosedB at hcl
+    rw [Bool.and_eq_true] at hcl
+    exact hcl.1
+  obtain ⟨h1, h2⟩ := bench_sched_hyps stmts hcl order
+  exact bench_end_to_end stmts hok order ho h1 (h2 hkn hcov) env
+
+/-- the same for the 8-valued simulation against the documented algebra (`prim8`; `semL8` = the real dispatch of `c_prop`) -/
+theorem bench_end_to_end8 (stmts : List BStmt) (hok : benchOKB stmts = true) (order : List Nat)
+    (ho : orderOKB (benchNet stmts) order = true) (hfk : forksOKB (benchNet stmts) order = true)
+    (hall : linesDrivenB Gen.kindPrefixes (benchNet stmts) order = true) (env : Nat → V3) :
+    ∃ σ, BenchModel stmts (env (benchNet stmts).idx.zero) prim8 (fun p => env ((benchNet stmts).idx.ppi + p)) σ ∧
+      (∀ σ', BenchModel stmts (env (benchNet stmts).idx.zero) prim8 (fun p => env ((benchNet stmts).idx.ppi + p)) σ' → σ' = σ) ∧
+      (∀ i, i < (benchNet stmts).lines.size →
+        exec semL8 ((genOps Gen.kindPrefixes (benchNet stmts) order false).map OpRow.toOp) env i = benchLabel stmts σ i) ∧
+      ((benchNet stmts).sNodes.map fun n => ((benchNet stmts).node n).inPin 0 |>.map
+        (exec semL8 ((genOps Gen.kindPrefixes (benchNet stmts) order false).map OpRow.toOp) env)) = benchCaptures stmts σ :=
+  bench_sim_generic (benchOK_of stmts hok) semL8 specL8 (fun _ h xs => semL8_eq_spec h xs) specNot prim8 semSpec8 order ho hfk hall env
+
+/-- … and the 4-valued one -/
+theorem bench_end_to_end4 (stmts : List BStmt) (hok : benchOKB stmts = true) (order : List Nat)
+    (ho : orderOKB (benchNet stmts) order = true) (hfk : forksOKB (benchNet stmts) order = true)
+    (hall : linesDrivenB Gen.kindPrefixes (benchNet stmts) order = true) (env : Nat → V2) :
+    ∃ σ, BenchModel stmts (env (benchNet stmts).idx.zero) prim4 (fun p => env ((benchNet stmts).idx.ppi + p)) σ ∧
+      (∀ σ', BenchModel stmts (env (benchNet stmts).idx.zero) prim4 (fun p => env ((benchNet stmts).idx.ppi + p)) σ' → σ' = σ) ∧
+      (∀ i, i < (benchNet stmts).lines.size →
+        exec semL4 ((genOps Gen.kindPrefixes (benchNet stmts) order false).map OpRow.toOp) env i = benchLabel stmts σ i) ∧
+      ((benchNet stmts).sNodes.map fun n => ((benchNet stmts).node n).inPin 0 |>.map
+        (exec semL4 ((genOps Gen.kindPrefixes (benchNet stmts) order false).map OpRow.toOp) env)) = benchCaptures stmts σ :=
+  bench_sim_generic (benchOK_of stmts hok) semL4 specL4 (fun _ h xs => semL4_eq_spec h xs) spec4Not prim4 semSpec4 order ho hfk hall env
+
+/-- **from TEXT**: for every statement list with writable names and EVERY layout of its token stream (any ignorable text between
+the tokens, `bench_text_layout_irrelevant`), the net of the circuit built from the model's reading of the text is `benchNet stmts`
+— so `bench_parsed_sem`, `bench_captured`, `bench_end_to_end` speak about the circuit parsed from that text -/
+theorem bench_text_to_net (stmts : List BStmt) (hv : stmts.all KV.BenchText.validStmt = true) (g0 : List Char)
+    (l : List (KV.BenchText.Tok × List Char)) (hl : l.map (·.1) = KV.BenchText.benchToks stmts)
+    (hg0 : KV.BenchText.gapB .ws g0 = true) (hlay : KV.BenchText.layoutOK l = true) :
+    (KV.BenchText.circOfText (String.ofList (g0 ++ KV.BenchText.renderTG l))).map (fun C => C.toNet C.ioBench) =
+      some (benchNet stmts) := by
+  simp only [KV.BenchText.circOfText, bench_text_layout_irrelevant stmts hv g0 l hl hg0 hlay, Option.map_some]
+  rfl
+
+/-! ### non-vacuity: `INPUT(a) INPUT(b) OUTPUT(z)  q = DFF(n)  n = NAND(a, q)  z = XOR(n, b)` -/
+def exDff : List BStmt :=
+  [.intf ["a"], .intf ["b"], .intf ["z"], .gate "q" "DFF" ["n"], .gate "n" "NAND" ["a", "q"], .gate "z" "XOR" ["n", "b"]]
+/-- assignment: `a = 1`, `b = 0`, state of `q` = 1 (positions 0, 1, 3; position 2 is the output port) -/
+def exDffA : Nat → Bool := fun p => p == 0 || p == 3
+
+example : KV.BenchText.parseBench "INPUT(a) INPUT(b) OUTPUT(z)\nq = DFF(n)\nn = NAND(a, q)\nz = XOR(n, b)" = some exDff := by decide +kernel
+example : exDff.all KV.BenchText.validStmt = true ∧ benchOKB exDff = true ∧ benchClosedB exDff = true ∧ benchKnownB exDff = true := by
+  decide +kernel
+example : benchSNames exDff = [.fork "a", .fork "b", .fork "z", .cell "q" 0] ∧ benchSigs exDff = ["q", "n", "n", "a", "q", "z", "n", "b"] := by
+  decide +kernel
+/-- the model: `q = 1` (state), `n = NAND(1, 1) = 0`, `z = XOR(0, 0) = 0`; the checker accepts it; observed: `z = 0`, next state of `q` = `n = 0` -/
+example : benchEval exDff false prim2 exDffA = [("q", true), ("n", false), ("z", false)] ∧
+    benchModelB exDff false prim2 exDffA (benchEval exDff false prim2 exDffA) = true ∧
+    benchCaptures exDff (envOf exDff false exDffA (benchEval exDff false prim2 exDffA)) = [none, none, some false, some false] := by
+  decide +kernel
+/-- the net (8 nodes: forks a b z n, cell q, fork q, cells n z; 8 lines) and an order satisfying the hypotheses of `bench_end_to_end` -/
+example : (benchNet exDff).io = [0, 1, 2] ∧ (benchNet exDff).sNodes = [0, 1, 2, 4] ∧ (benchNet exDff).lines.size = 8 ∧
+    orderOKB (benchNet exDff) [0, 1, 4, 5, 6, 3, 7, 2] = true ∧ forksOKB (benchNet exDff) [0, 1, 4, 5, 6, 3, 7, 2] = true ∧
+    linesDrivenB Gen.kindPrefixes (benchNet exDff) [0, 1, 4, 5, 6, 3, 7, 2] = true ∧ (benchNet exDff).nodes.size = 8 ∧
+    (List.range 8).all (fun n => [0, 1, 4, 5, 6, 3, 7, 2].contains n) = true := by decide +kernel
+/-- kind families and arities: the primitive a gate statement means -/
+example : specPrimName "nand" false false = some "NAND2" ∧ specPrimName "nand" true false = some "NAND3" ∧
+    specPrimName "and" true true = some "AND4" ∧ specPrimName "not" false false = some "INV1" ∧
+    specPrimName "buff" false false = some "BUF1" ∧ specPrimName "__const1__" false false = some "INV1" ∧
+    prim2 "NAND2" true true false false = false ∧ prim2 "INV1" false false false false = true := by decide +kernel
+end ParsedSem
+
+/-! ## `parsed_sem`, structural Verilog (fragment `verilogOKB`): the parsed circuit has the function the module denotes
+
+`verilogNet cfg tl ports stmts` is the canonical dump of `module cfg tl ports stmts` — the UNRESOLVED circuit, as `verilog.parse`
+returns it before `resolve_tlib_cells`: an instance node of cell type `K` means what the simulator's kind table makes of the name
+`K` (prefix family, arity by connected pins; `dff`/`latch` kinds are state elements), pins numbered by the library `tl`.  For a
+library whose cells are the simulation primitives this is the function of the netlist; substitution of library cells is property
+C10 (`resolve_sem`).  `VModel tl ports stmts z neg prim a σ` (Model/VerilogSem.lean): `σ` gives every instance output what the
+instance computes from the signals and constants on its input pins, every input port bit its assigned value, every assign target
+the value of its source (`sigVal`: a signal's `σ`, or what a `__const<b>__` cell computes), every undriven name `z`.
+Fragment `verilogOKB` (decidable, spelled out in Model/VerilogSem.lean): declarations (any ranges / grouping / order / redundant
+wires); instantiations with named single-bit pins known to the library, each input pin a constant bit `1'b0`/`1'b1` (its own
+`__const<b>_<k>__` cell and fork, numbered by `const_count`) or a DRIVEN signal under the driver's name; `assign` statements of any
+shape (widths, concatenations, selects, sized constants — what counts are the bit pairs) whose pairs are in dependency order: the
+target is not yet a fork, the source is a constant bit or already a fork (both variants of pass 1.5, `Cfg.assignFix`); all ports
+declared and all port declarations listed; outputs driven under their own name; cell names pairwise different; one line per fork
+/ cell pin (`nodupE` of the reader end points); per instance pairwise different input pin indices; BOTH `branchforks` settings.
+NOT covered (oracle only): multi-bit pin connections, a 1-bit bus read by its base name, floating inputs, undriven outputs,
+assign pairs out of dependency order or onto a driven target (findings D23/D24), positional pins. -/
+section ParsedSemVerilog
+open KV KV.Sig
+
+/-- the dump of the parsed circuit is well formed — every statement list, library, configuration -/
+theorem verilog_net_wf (cfg : Cfg) (tl : TL) (ports : List String) (stmts : List Stmt) : (verilogNet cfg tl ports stmts).wfB = true :=
+  toNet_wf _ _
+
+/-- the circuit of a module of the fragment in closed form: its lines are, in creation order, one line per instance output
+connection (cell pin → fork of the driven signal), one per input port bit (cell → fork), one per assign pair (source fork →
+target fork, or a new constant cell → target fork), per instance input connection the line of its constant cell (if any) and the
+line fork → cell pin (with `branchforks` two lines through the fork `stem~inst/pin`), one per output port bit (fork → cell) —
+`vFlat`, each with the signal or constant it carries -/
+theorem verilog_lines (cfg : Cfg) (tl : TL) (ports : List String) (stmts : List Stmt) (hok : verilogOKB cfg tl ports stmts = true) :
+    flatLines (module cfg tl ports stmts) = (vFlat cfg tl (sigDecls stmts) stmts).map (fun l => (l.d, l.r)) ∧
+    (verilogNet cfg tl ports stmts).lines.size = (vSigs cfg tl stmts).length := by
+  have hok' := vok_of cfg tl ports stmts hok
+  refine ⟨module_flat hok', ?_⟩
+  rw [verilogNet_lines_size hok']
+  simp [vSigs]
+
+/-- ports and `s_nodes` of the net: the port bits in port-list order, each expanded by its declared range in declared direction
+(`posNames`, `ports_order`) — the `input`/`output` cells —, then the flip-flop instances in statement order, then the latch
+instances; `vSPos` is the position in this list -/
+theorem verilog_snodes (cfg : Cfg) (tl : TL) (ports : List String) (stmts : List Stmt) (hok : verilogOKB cfg tl ports stmts = true) :
+    (verilogNet cfg tl ports stmts).io = (posNames (sigDecls stmts) ports).map (fun n => (module cfg tl ports stmts).nodeIdx (.cell n 0)) ∧
+    (verilogNet cfg tl ports stmts).sNodes = (vSNames ports stmts).map (module cfg tl ports stmts).nodeIdx ∧
+    ∀ e ∈ vSNames ports stmts, (verilogNet cfg tl ports stmts).sPos ((module cfg tl ports stmts).nodeIdx e) = some (vSPos ports stmts e) := by
+  have hok' := vok_of cfg tl ports stmts hok
+  refine ⟨?_, verilogNet_sNodes hok', fun e he => ?_⟩
+  · show (module cfg tl ports stmts).ioVerilog = _
+    unfold Circ.ioVerilog
+    rw [module_ioNames hok', List.map_map]
+    rfl
+  · obtain ⟨h1, h2⟩ := vSNames_resolved hok' e he
+    rw [verilogNet_sPos hok' e h1 h2]
+    simp [he]
+
+/-- **`verilog_parsed_sem`**: for every module of the fragment, every value domain, op algebra and assignment:
+(1) every model `σ` of the module induces a labelling of the lines consistent with the netlist (line `i` carries `sigVal σ` of
+`vSigs[i]`: an instance output line its driven signal, an assign line its source, a reader line — and both halves of a branch,
+and the line of a constant cell — the signal or constant read);
+(2) every labelling consistent with the netlist is induced by a model; (3) one model per labelling. -/
+theorem verilog_parsed_sem {α : Type} (cfg : Cfg) (tl : TL) (ports : List String) (stmts : List Stmt)
+    (hok : verilogOKB cfg tl ports stmts = true) (z : α) (neg : α → α) (prim : String → α → α → α → α → α) (a : Nat → α) :
+    (∀ σ, VModel tl ports stmts z neg prim a σ →
+      NetLabelling (verilogNet cfg tl ports stmts) z neg prim a (vLabel cfg tl stmts z prim σ)) ∧
+    (∀ v, NetLabelling (verilogNet cfg tl ports stmts) z neg prim a v →
+      ∃ σ, VModel tl ports stmts z neg prim a σ ∧
+        ∀ i, i < (verilogNet cfg tl ports stmts).lines.size → v i = vLabel cfg tl stmts z prim σ i) ∧
+    (∀ σ σ', VModel tl ports stmts z neg prim a σ → VModel tl ports stmts z neg prim a σ' →
+      (∀ i, i < (verilogNet cfg tl ports stmts).lines.size → vLabel cfg tl stmts z prim σ i = vLabel cfg tl stmts z prim σ' i) →
+      σ = σ') := by
+  have hok' := vok_of cfg tl ports stmts hok
+  exact ⟨fun σ hm => v_model_labelling hok' z neg prim a σ hm, fun v hv => v_labelling_model hok' z neg prim a v hv,
+    fun σ σ' h1 h2 h => v_model_unique hok' z neg prim a σ σ' h1 h2 h⟩
+
+theorem verilog_label_def {α : Type} (cfg : Cfg) (tl : TL) (stmts : List Stmt) (z : α) (prim : String → α → α → α → α → α)
+    (σ : String → α) (i : Nat) :
+    vLabel cfg tl stmts z prim σ i = sigVal z prim σ ((vSigs cfg tl stmts).getD i "") := rfl
+
+/-- **what is observed**: under the labelling of `σ`, the value captured at `s_nodes` position `j` is `σ o` at an output port bit
+`o`, the value of the signal or constant on input pin index 0 at a state element, nothing at input ports -/
+theorem verilog_captured {α : Type} (cfg : Cfg) (tl : TL) (ports : List String) (stmts : List Stmt)
+    (hok : verilogOKB cfg tl ports stmts = true) (z : α) (prim : String → α → α → α → α → α) (σ : String → α) :
+    ((verilogNet cfg tl ports stmts).sNodes.map fun n =>
+        ((verilogNet cfg tl ports stmts).node n).inPin 0 |>.map (vLabel cfg tl stmts z prim σ)) =
+      vCaptures tl ports stmts z prim σ :=
+  v_captures (vok_of cfg tl ports stmts hok) z prim σ
+
+/-- the driver's acceptance check is sound: an accepted table IS a model -/
+theorem verilog_checker_sound {α : Type} [BEq α] [LawfulBEq α] (tl : TL) (ports : List String) (stmts : List Stmt) (z : α)
+    (neg : α → α) (prim : String → α → α → α → α → α) (a : Nat → α) (tab : List (String × α))
+    (h : vModelB tl ports stmts z neg prim a tab = true) : VModel tl ports stmts z neg prim a (vEnvOf z tab) :=
+  vModelB_sound z neg prim a tab h
+
+/-- **`verilog_end_to_end`** (2-valued; composition with C01/C02): for every module of the fragment, every topological order of
+its net that schedules every line (`orderOKB`, `forksOKB`, `linesDrivenB`: decidable, evaluated by the driver on every real circuit
+and order) and every stimulus: exactly ONE model `σ`, the 2-valued `LogicSim` result is the value of the line's signal on every
+line, and what is captured at every interface position is what the module observes -/
+theorem verilog_end_to_end (cfg : Cfg) (tl : TL) (ports : List String) (stmts : List Stmt) (hok : verilogOKB cfg tl ports stmts = true)
+    (order : List Nat) (ho : orderOKB (verilogNet cfg tl ports stmts) order = true)
+    (hfk : forksOKB (verilogNet cfg tl ports stmts) order = true)
+    (hall : linesDrivenB Gen.kindPrefixes (verilogNet cfg tl ports stmts) order = true) (env : Nat → Bool) :
+    ∃ σ, VModel tl ports stmts (env (verilogNet cfg tl ports stmts).idx.zero) (!·) prim2
+        (fun p => env ((verilogNet cfg tl ports stmts).idx.ppi + p)) σ ∧
+      (∀ σ', VModel tl ports stmts (env (verilogNet cfg tl ports stmts).idx.zero) (!·) prim2
+        (fun p => env ((verilogNet cfg tl ports stmts).idx.ppi + p)) σ' → σ' = σ) ∧
+      (∀ i, i < (verilogNet cfg tl ports stmts).lines.size →
+        exec semL2n ((genOps Gen.kindPrefixes (verilogNet cfg tl ports stmts) order false).map OpRow.toOp) env i =
+          vLabel cfg tl stmts (env (verilogNet cfg tl ports stmts).idx.zero) prim2 σ i) ∧
+      ((verilogNet cfg tl ports stmts).sNodes.map fun n => ((verilogNet cfg tl ports stmts).node n).inPin 0 |>.map
+        (exec semL2n ((genOps Gen.kindPrefixes (verilogNet cfg tl ports stmts) order false).map OpRow.toOp) env)) =
+          vCaptures tl ports stmts (env (verilogNet cfg tl ports stmts).idx.zero) prim2 σ :=
+  verilog_sim_generic (vok_of cfg tl ports stmts hok) semL2n specL2 (fun _ h xs => semL2n_eq_spec h xs) (!·) prim2 semSpec2
+    order ho hfk hall env
+
+/-- the same for the 8-valued simulation against the documented algebra -/
+theorem verilog_end_to_end8 (cfg : Cfg) (tl : TL) (ports : List String) (stmts : List Stmt) (hok : verilogOKB cfg tl ports stmts = true)
+    (order : List Nat) (ho : orderOKB (verilogNet cfg tl ports stmts) order = true)
+    (hfk : forksOKB (verilogNet cfg tl ports stmts) order = true)
+    (hall : linesDrivenB Gen.kindPrefixes (verilogNet cfg tl ports stmts) order = true) (env : Nat → V3) :
+    ∃ σ, VModel tl ports stmts (env (verilogNet cfg tl ports stmts).idx.zero) specNot prim8
+        (fun p => env ((verilogNet cfg tl ports stmts).idx.ppi + p)) σ ∧
+      (∀ σ', VModel tl ports stmts (env (verilogNet cfg tl ports stmts).idx.zero) specNot prim8
+        (fun p => env ((verilogNet cfg tl ports stmts).idx.ppi + p)) σ' → σ' = σ) ∧
+      (∀ i, i < (verilogNet cfg tl ports stmts).lines.size →
+        exec semL8 ((genOps Gen.kindPrefixes (verilogNet cfg tl ports stmts) order false).map OpRow.toOp) env i =
+          vLabel cfg tl stmts (env (verilogNet cfg tl ports stmts).idx.zero) prim8 σ i) ∧
+      ((verilogNet cfg tl ports stmts).sNodes.map fun n => ((verilogNet cfg tl ports stmts).node n).inPin 0 |>.map
+        (exec semL8 ((genOps Gen.kindPrefixes (verilogNet cfg tl ports stmts) order false).map OpRow.toOp) env)) =
+          vCaptures tl ports stmts (env (verilogNet cfg tl ports stmts).idx.zero) prim8 σ :=
+  verilog_sim_generic (vok_of cfg tl ports stmts hok) semL8 specL8 (fun _ h xs => semL8_eq_spec h xs) specNot prim8 semSpec8
+    order ho hfk hall env
+
+/-- **from TEXT**: the net of the circuit built from the model's reading of the printed module text is `verilogNet` of the
+transformed statement list — so the theorems above speak about circuits parsed from text (`verilog_text_layout_irrelevant`: any layout) -/
+theorem verilog_text_to_net (cfg : Cfg) (tl : TL) (m : KV.VerilogText.VModule) (rs : List RStmt)
+    (hv : KV.VerilogText.validModule m = true) (hr : KV.VerilogText.toRs m.stmts = some rs) :
+    (KV.VerilogText.circOfText cfg tl (KV.VerilogText.printVerilog [m])).map (fun C => C.toNet C.ioVerilog) =
+      some (verilogNet cfg tl m.ports (rs.map transform)) := by
+  rw [verilog_text_to_netlist cfg tl m rs hv hr]
+  rfl
+
+/-! ### non-vacuity: `module m(a, z, y); input a; output z, y; wire n; DFF_X1 f (.D(n), .Q(q), .QN(qn));
+NAND2_X1 u1 (.A1(a), .A2(1'b1), .ZN(n)); INV_X1 u2 (.I(qn), .ZN(w)); assign z = w; assign y = 1'b0; endmodule` -/
+def exTL2 : TL := fun k p =>
+  if k == "DFF_X1" then (if p == "D" then some (0, false) else if p == "CK" then some (1, false) else if p == "Q" then some (0, true)
+    else if p == "QN" then some (1, true) else none)
+  else exTL k p
+def exV : List Stmt := [.decls [⟨.input, "a", none⟩], .decls [⟨.output, "z", none⟩, ⟨.output, "y", none⟩], .decls [⟨.wire, "n", none⟩],
+  .inst "DFF_X1" "f" [("D", .one "n"), ("Q", .one "q"), ("QN", .one "qn")],
+  .inst "NAND2_X1" "u1" [("A1", .one "a"), ("A2", .one "1'b1"), ("ZN", .one "n")],
+  .inst "INV_X1" "u2" [("I", .one "qn"), ("ZN", .one "w")],
+  .assign ["z"] ["w"], .assign ["y"] ["1'b0"]]
+/-- assignment: `a = 1` (position 0), state of `f` = 1 (position 3; positions 1, 2 are the output ports) -/
+def exVA : Nat → Bool := fun p => p == 0 || p == 3
+
+example : verilogOKB {} exTL2 ["a", "z", "y"] exV = true ∧ verilogOKB { bf := true } exTL2 ["a", "z", "y"] exV = true ∧
+    verilogOKB { assignFix := true } exTL2 ["a", "z", "y"] exV = true ∧ (module {} exTL2 ["a", "z", "y"] exV).err = false := by
+  decide +kernel
+example : vSNames ["a", "z", "y"] exV = [.cell "a" 0, .cell "z" 0, .cell "y" 0, .cell "f" 0] ∧
+    vSigs {} exTL2 exV = ["q", "qn", "n", "w", "a", "w", "1'b0", "n", "a", "1'b1", "1'b1", "qn", "z", "y"] := by decide +kernel
+/-- the lines of the two constants: the assign constant gets `__const0_0__`, the pin constant `__const1_1__` with its own fork -/
+example : (⟨.cell "__const0_0__" 0, .fork "y", none⟩ : LineM) ∈ (module {} exTL2 ["a", "z", "y"] exV).lines ∧
+    (⟨.cell "__const1_1__" 0, .fork "__const1_1__", none⟩ : LineM) ∈ (module {} exTL2 ["a", "z", "y"] exV).lines ∧
+    (⟨.fork "__const1_1__", .cell "u1" 1, none⟩ : LineM) ∈ (module {} exTL2 ["a", "z", "y"] exV).lines ∧
+    (⟨.fork "w", .fork "z", none⟩ : LineM) ∈ (module {} exTL2 ["a", "z", "y"] exV).lines := by decide +kernel
+/-- the model: `q = 1`, `qn = 0`, `n = NAND(1, 1) = 0`, `w = NOT(0) = 1`, `z = w = 1`, `y = 0`; observed: `z = 1`, `y = 0`, next state `n = 0` -/
+example : vEval exTL2 ["a", "z", "y"] exV false (!·) prim2 exVA =
+      [("a", true), ("q", true), ("qn", false), ("n", false), ("w", true), ("z", true), ("y", false)] ∧
+    vModelB exTL2 ["a", "z", "y"] exV false (!·) prim2 exVA (vEval exTL2 ["a", "z", "y"] exV false (!·) prim2 exVA) = true ∧
+    vCaptures exTL2 ["a", "z", "y"] exV false prim2 (vEnvOf false (vEval exTL2 ["a", "z", "y"] exV false (!·) prim2 exVA)) =
+      [none, some true, some false, some false] := by
+  decide +kernel
+/-- the net (16 nodes) and an order satisfying the hypotheses of `verilog_end_to_end` -/
+example : (verilogNet {} exTL2 ["a", "z", "y"] exV).io = [7, 9, 10] ∧ (verilogNet {} exTL2 ["a", "z", "y"] exV).sNodes = [7, 9, 10, 0] ∧
+    orderOKB (verilogNet {} exTL2 ["a", "z", "y"] exV) [7, 8, 0, 1, 2, 14, 15, 3, 4, 5, 6, 11, 12, 13, 9, 10] = true ∧
+    forksOKB (verilogNet {} exTL2 ["a", "z", "y"] exV) [7, 8, 0, 1, 2, 14, 15, 3, 4, 5, 6, 11, 12, 13, 9, 10] = true ∧
+    linesDrivenB Gen.kindPrefixes (verilogNet {} exTL2 ["a", "z", "y"] exV) [7, 8, 0, 1, 2, 14, 15, 3, 4, 5, 6, 11, 12, 13, 9, 10] = true := by
+  decide +kernel
+end ParsedSemVerilog
 
 end KV.C11
